@@ -23,6 +23,8 @@ def run(C, R):
         F = C.facts(cfg)
         E = C.engine(cfg)
         R.configs.append(cfg)
+        from common import slot_discipline as _sd
+        R.floor('C13.R6 slot-accesses[%s]' % cfg, _sd(R, C.engine(cfg), C.facts(cfg), C.cg(cfg), 'channel::state_broadcast::ChannelState', 'C13.R6', may_take=False), 1)
         from common import futures_start_initial as _fsi
         R.floor('C13.R0f future-construction-paths[%s]' % cfg, _fsi(C, R, cfg, ['channel::state_broadcast::ChannelState'], 'C13.R0f'), 1)
         from common import constructor_state
